@@ -120,6 +120,21 @@ theorem C07_D37_rule_on_a_cycle_is_not_marked :
       some ([("A", true, true), ("Z", true, false), ("C", false, false)], .ok true) ∧
     (reachFrom (Spec.specGraph gD37) "C").contains "C" = true := by decide
 
+/-- **finding D38** (same root as D37, but fatal): a same-position cycle through NO leader. `A <- D 'a' / 'q'; D <- Z E 'd' / 'p';
+    E <- D 'x' / 'e'; Z <- A 'y' / ""`: the flag of the reference to the nullable `Z` in `D`'s body is overwritten with `false` during
+    the top-level visit of `Z`; the analysis sees the one cycle A-D-Z, makes `A` the leader and leaves `E` unmarked - while in the
+    specification's graph `D` reaches `E` and `E` reaches `D`, a cycle that contains neither `A` nor any other leader. The parser
+    generated with `-support-left-recursion` recurses without bound on it (real binary: fatal stack overflow; listed witness). -/
+def gD38 : AGrammar := [
+  { name := "A", expr := .choice false [.seq false [.ref false "D", .lit false], .lit false] },
+  { name := "D", expr := .choice false [.seq false [.ref false "Z", .ref false "E", .lit false], .lit false] },
+  { name := "E", expr := .choice false [.seq false [.ref false "D", .lit false], .lit false] },
+  { name := "Z", expr := .choice false [.seq false [.ref false "A", .lit false], .lit true] }]
+theorem C07_D38_cycle_through_no_leader :
+    (prepare cfgNow gD38 ["A", "D", "E", "Z"]).map (fun r => (r.1.map (fun x => (x.name, x.leftRecursive, x.leader)), r.2)) =
+      some ([("A", true, true), ("D", true, false), ("E", false, false), ("Z", true, false)], .ok true) ∧
+    (succs (Spec.specGraph gD38) "D").contains "E" = true ∧ (succs (Spec.specGraph gD38) "E").contains "D" = true := by decide
+
 /-- direct left recursion is detected whatever follows: for `A <- A e / f` the rule's initial names
     contain `A` (a self-loop in the first graph), for every `e`, `f`, every flag assignment and
     every configuration of the analysis -/
